@@ -198,6 +198,15 @@ class _:
         'same-header-object-and-messages': lambda result, hdr, msgs: S.same(result.hdr, hdr) & S.same(result.msgs, msgs),
     }
     modifies = ['hdr.length', 'hdr.count']
+    returns = lambda E, args: E.obj(PKT, hdr=args['hdr'], msg=Sym(fresh_bytes(E, 'pkt_msg'), 'bytes'), msgs=args['msgs'])
+
+
+def fresh_bytes(E, name):
+    t = E.ctx.fresh(name, BytesSort)
+    n = E.ctx.fresh(name + '_len', z3.IntSort())
+    E.ctx.assume(n >= 0)
+    ops.set_len_term(t, n)
+    return t
 
 
 
